@@ -293,11 +293,11 @@ def judge(r):
             late = [c for e, c in ev[lost_at + 1:] if e == "entered"]
             g0 = set(r.get("gift0", [[], []])[d])
             if late and set(late) <= g0:
-                bad.append(("oracle/entered-after-loss-giftid0", "direction %d: call(s) %r, whose third-party reference the peer sent "
+                bad.append(("note/entered-after-loss-giftid0", "beyond the property text (robustness observation): direction %d: call(s) %r, whose third-party reference the peer sent "
                             "with giftID 0, were entered after the receiving Broker had lost the connection (ackGift sends "
                             "nothing for giftID 0, so the late resolution is not turned into a failure)" % (d, late)))
             elif late:
-                bad.append(("oracle/entered-after-loss", "direction %d: call(s) %r were entered after the receiving Broker had lost "
+                bad.append(("note/entered-after-loss", "beyond the property text (robustness observation): direction %d: call(s) %r were entered after the receiving Broker had lost "
                             "the connection (connectionLost -> finish)" % (d, late)))
             excused = set(ids) - set(c for e, c in ev[:lost_at] if e == "entered")
         if r.get("send_lost", [False, False])[d]:
@@ -708,6 +708,7 @@ def run(ctx):
     before = len(ctx.failures)
     runs = []
     seen_sigs = set()
+    noted = set()
 
     ndone = [0]
 
@@ -729,6 +730,13 @@ def run(ctx):
                 ctx.hist("event", e)
         ctx.hist("script_len", 10 * (len(script) // 10))
         bad = judge(r)
+        # C04 says nothing about connection loss: what happens after a loss is recorded as a note, never as a violation
+        # (the order / at-most-once / head-of-line oracles above have judged the same history)
+        for sg, what in bad:
+            if sg.startswith("note/") and sg not in noted:
+                noted.add(sg)
+                ctx.note("%s [scenario %s: %s]" % (what, name, json.dumps(script)[:600]))
+        bad = [(sg, what) for sg, what in bad if not sg.startswith("note/")]
         if bad:
             report(ctx, impl, name, script, r, bad, seen_sigs, loopback, knobs)
         if loopback or knobs:
